@@ -115,7 +115,7 @@ def run(seed, tier, lean) -> Result:
                       '(field, field, type, type) quadruples in both orientations, link mirroring; ill-formed mutants (unknown super asset, association '
                       'end(s), field, step target) must raise; for two random valid models every attack-graph edge must be predicted by a language-graph '
                       'link; compared with an independent reference and the Lean model; non-trivial = inheritance depth >= 2 and an association on an ancestor')
-    n = 200 if tier == 'quick' else 8000
+    n = 200 if tier == 'quick' else 1200
     cases = []
     for i in range(n):
         r = random.Random(rnd.getrandbits(48))
